@@ -274,7 +274,66 @@ class Program:
             f = self.supplier(c, meth)
             if f is not None and f not in out:
                 out.append(f)
+        if len(out) > 1:
+            # an override that only hands over to another implementation of the set (`return await
+            # Base.meth(self, ...)`, `return super().meth(...)`) adds no behaviour of its own
+            keep = [f for f in out if self.thin_delegate_target(f) not in out]
+            if keep:
+                out = keep
         return out
+
+    def effective_supplier(self, cls, meth):
+        """the implementation `cls().meth` ends up in, seen through overrides that only delegate"""
+        f = self.supplier(cls, meth)
+        seen = set()
+        while f is not None and f.qualname not in seen:
+            seen.add(f.qualname)
+            t = self.thin_delegate_target(f)
+            if t is None:
+                break
+            f = t
+        return f
+
+    def thin_delegate_target(self, f):
+        """the function f delegates to when its whole body is `return [await] <Class|super()>.<same name>(...)`
+        with its own parameters passed through unchanged; else None"""
+        body = [s for s in f.node.body if not (isinstance(s, ast.Expr) and isinstance(s.value, ast.Constant))]
+        if len(body) != 1 or not isinstance(body[0], (ast.Return, ast.Expr)) or f.cls is None:
+            return None
+        v = body[0].value
+        if isinstance(v, ast.Await):
+            v = v.value
+        if not (isinstance(v, ast.Call) and isinstance(v.func, ast.Attribute) and v.func.attr == f.name):
+            return None
+        params = list(f.params)
+        base = v.func.value
+        args = [a for a in v.args]
+        target = None
+        if isinstance(base, ast.Name) and base.id in self.classes and args and isinstance(args[0], ast.Name) \
+                and params and args[0].id == params[0]:
+            target = self.supplier(self.classes[base.id], f.name)
+            args = args[1:]
+            rest = params[1:]
+        elif isinstance(base, ast.Call) and dotted(base.func) == 'super' and not base.args:
+            for c in f.cls.mro[1:]:
+                if f.name in c.methods:
+                    target = c.methods[f.name]
+                    break
+            rest = params[1:]
+        else:
+            return None
+        if target is None or target is f:
+            return None
+        # parameters handed over as they are
+        passed = [a.id if isinstance(a, ast.Name) else None for a in args] + \
+                 [k.value.id if isinstance(k.value, ast.Name) and k.arg == k.value.id else None for k in v.keywords
+                  if k.arg is not None]
+        star = [a for a in v.args if isinstance(a, ast.Starred)] + [k for k in v.keywords if k.arg is None]
+        if None in passed and not star:
+            return None
+        if not star and sorted(passed) != sorted(rest):
+            return None
+        return target
 
     def definers(self, meth):
         """every package class defining `meth` itself"""
